@@ -119,10 +119,28 @@ pub fn judge_render(rt: &tokio::runtime::Runtime, r: &mut Report, case: &ECase) 
             (q, SvcCfg::default())
         }
         "backend/head-bucket" => (RawRequest::new("HEAD", "/bucket-e").header("host", "h.example"), SvcCfg::default()),
+        v if v.starts_with("backend/complete-multipart-upload") => {
+            let doc = "<CompleteMultipartUpload><Part><ETag>\"a\"</ETag><PartNumber>1</PartNumber></Part></CompleteMultipartUpload>";
+            let mut q = RawRequest::new("POST", "/bucket-e/key-e?uploadId=u1").header("host", "h.example").header("content-length", &doc.len().to_string());
+            q.body = doc.as_bytes().to_vec();
+            (q, SvcCfg::default())
+        }
         _ => (RawRequest::new("GET", "/bucket-e?location").header("host", "h.example"), SvcCfg::default()),
     };
-    let script = Script::Error(Box::new(build_error(case)));
-    let (out, _ev) = run_once(rt, &cfg, Some(script), &req);
+    let mut script = Script::Error(Box::new(build_error(case)));
+    // the completion of a multipart upload answers 200 at once and delivers the error in the body (keep-alive): the
+    // backend takes 0 / 120 / 250 ms, the client reads eagerly or slowly (150 / 250 ms between frames)
+    let keep_alive = case.via.starts_with("backend/complete-multipart-upload");
+    let (work_ms, lazy_ms) = match case.via.rsplit('/').next().unwrap_or("") {
+        "slow-reader" => (0, 250),
+        "slow-backend" => (250, 0),
+        "both-slow" => (120, 150),
+        _ => (0, 0),
+    };
+    if work_ms > 0 {
+        script = Script::Delay(work_ms, Box::new(script));
+    }
+    let (out, _ev) = with_lazy_reader(lazy_ms, || run_once(rt, &cfg, Some(script), &req));
     let known = expected_status(&case.code).is_some();
     let wit = |what: &str| json!({"kind": "render", "case": case, "what": what, "outcome": out.to_json()});
     let cls = if known { "table-code" } else if s3s::S3ErrorCode::from_bytes(case.code.as_bytes()).is_some() { "code-without-table-status" } else { "custom-code" };
@@ -133,14 +151,21 @@ pub fn judge_render(rt: &tokio::runtime::Runtime, r: &mut Report, case: &ECase) 
     // status
     let want_status = case.status_override.or_else(|| expected_status(&case.code));
     if let Some(ws) = want_status {
-        if resp.status != ws {
+        // (keep-alive: the status line is sent before the backend has answered)
+        if resp.status != ws && !(keep_alive && resp.status == 200) {
             r.violated(format!("C04/render/status/{}/{}", if case.status_override.is_some() { "override".to_owned() } else { case.code.clone() }, resp.status), wit("status differs from the table / override"));
             return;
         }
     }
     // headers attached to the error (every value)
+    if let (true, Some(e)) = (keep_alive, &resp.body_error) {
+        r.violated("C04/render/keep-alive-body-error", wit(&format!("the response body failed: {e}")));
+        return;
+    }
     for (k, v) in &case.headers {
-        if !resp.headers.iter().any(|(n, val)| n.eq_ignore_ascii_case(k) && val == v.as_bytes()) {
+        // (keep-alive: headers of a late error can only travel as trailers)
+        let in_trailers = keep_alive && resp.trailers.as_ref().is_some_and(|t| t.iter().any(|(n, val)| n.eq_ignore_ascii_case(k) && val == v.as_bytes()));
+        if !in_trailers && !resp.headers.iter().any(|(n, val)| n.eq_ignore_ascii_case(k) && val == v.as_bytes()) {
             r.violated(format!("C04/render/header-missing/{}", if case.headers.iter().filter(|(n, _)| n == k).count() > 1 { "repeated-name" } else { "single" }), wit("a header attached to the error is missing"));
             return;
         }
@@ -598,8 +623,8 @@ pub fn run(ctx: &RunCtx) -> i32 {
                     headers.push(("x-verif-err".to_owned(), g.alnum(3)));
                 }
             }
-            let via = ["backend/get-object", "backend/put-object", "backend/get-bucket-location", "backend/head-bucket"][(i % 4) as usize];
-            let case = ECase { code: code.clone(), message, request_id, status_override, headers, via: via.into(), built: ((i / 4) % 5) as u8 };
+            let via = ["backend/get-object", "backend/put-object", "backend/get-bucket-location", "backend/head-bucket", "backend/complete-multipart-upload/eager", "backend/complete-multipart-upload/slow-reader", "backend/complete-multipart-upload/slow-backend", "backend/complete-multipart-upload/both-slow"][(i % 8) as usize];
+            let case = ECase { code: code.clone(), message, request_id, status_override, headers, via: via.into(), built: ((i / 8) % 5) as u8 };
             if sample_skip() {
                 continue;
             }
